@@ -14,7 +14,8 @@ EXPLANATION = (
     "normaliser: every __getitem__ goes through _normalize_indices or delegates to children that do; (R18.5) entry generators "
     "return what they wrap; (R18.6) cumulative error budgets: a local initialised to a literal before an approximation loop and "
     "tested against a tolerance inside it (find_truncation_rank's discarded energy) is updated in the loop on every path that "
-    "continues.")
+    "continues; (R18.8) negation negates exactly one factor of each product (all summands of a sum, the core of a Tucker tensor): "
+    "negating all d Kronecker factors gives the sign (-1)^d; (R18.7 = R16.5) mode products put the new axis back by a cyclic move.")
 DOES_NOT_DECIDE = "any homomorphism with full-array expansion, truncation/approximation error bounds, orthonormality"
 TECHNIQUE = "custom AST rules: class/method matrix, alias/effect analysis, loop-exit classification, delegation check"
 
@@ -263,10 +264,79 @@ def r18_5(ctx):
     ctx.decide('R18.5', r1.qual, 'X[i,j] += alpha * u[i] * v[j]', ok or None, r1.node, 'rank-one update kernel')
 
 
+def r18_8(ctx):
+    """Negation of a product-structured object negates exactly ONE factor of each product (negating all d factors gives the
+    sign (-1)^d: the identity for even d, and A - B silently becomes A + B); a sum-structured object negates every summand."""
+    # class -> (kind, how the factor collection of ONE product is spelled)
+    table = {
+        'CanonicalTensor': ('product', ('Xs',)),        # rank-one terms are columns of the factor matrices: one matrix negated
+        'TensorProd': ('product', ('Xs',)),
+        'CanonicalOperator': ('terms', ('terms',)),     # sum over terms, each term a tuple of Kronecker factors
+        'TensorSum': ('sum', ('Xs',)),
+        'TuckerTensor': ('core', ('X',)),
+    }
+    n = 0
+    for cname, (kind, attrs) in table.items():
+        fi = ctx.prog.maybe_func('%s.%s.__neg__' % (T, cname))
+        if fi is None:
+            continue
+        rets = guards.returns_of(fi.node)
+        if not rets:
+            continue
+        n += 1
+        v = rets[-1].value
+        negs = [u for u in ast.walk(v) if isinstance(u, ast.UnaryOp) and isinstance(u.op, ast.USub)]
+        comps = [c for c in ast.walk(v) if isinstance(c, (ast.GeneratorExp, ast.ListComp))]
+
+        def bound_by(name):
+            for c in comps:
+                for g in c.generators:
+                    if any(isinstance(x, ast.Name) and x.id == name for x in ast.walk(g.target)):
+                        return g
+            return None
+        verdict, why = None, 'form of the negation not recognised'
+        if kind in ('product', 'terms'):
+            per_factor = []
+            for u in negs:
+                o = u.operand
+                if isinstance(o, ast.Name):
+                    g = bound_by(o.id)
+                    if g is None:
+                        continue
+                    it = src(g.iter)
+                    # the generator runs over the factors of one product: self.Xs / A.Xs for product classes, the
+                    # term variable (bound by a generator over .terms) for the operator
+                    if kind == 'product' and it.split('.')[-1] in attrs:
+                        per_factor.append(u)
+                    elif kind == 'terms' and isinstance(g.iter, ast.Name):
+                        g2 = bound_by(g.iter.id)
+                        if g2 is not None and src(g2.iter).split('.')[-1] in attrs:
+                            per_factor.append(u)
+            single = [u for u in negs if isinstance(u.operand, ast.Subscript) and isinstance(u.operand.slice, ast.Constant)]
+            if per_factor:
+                verdict, why = False, ('`%s` negates EVERY factor of a product: the result is (-1)^d times the operand -- unchanged for an '
+                                       'even number of factors, so A - B computes A + B there' % src(per_factor[0]))
+            elif len(single) == 1 and len(negs) == 1:
+                verdict, why = True, 'exactly one factor (%s) is negated, the others are kept' % src(single[0].operand)
+        elif kind == 'sum':
+            if len(negs) == 1 and isinstance(negs[0].operand, ast.Name) and bound_by(negs[0].operand.id) is not None \
+                    and src(bound_by(negs[0].operand.id).iter).split('.')[-1] in attrs:
+                verdict, why = True, 'every summand is negated'
+        elif kind == 'core':
+            if len(negs) == 1 and src(negs[0].operand) in ('self.X',):
+                verdict, why = True, 'the core tensor is negated, the factor matrices are kept'
+        ctx.decide('R18.8', fi.qual, 'return ' + src(v)[:110], verdict, rets[-1], why, definite=True)
+    ctx.floor('R18.8', '__neg__ implementations of the tensor / operator classes', n, 4)
+
+
 def run(ctx):
+    r18_8(ctx)
     r18_1(ctx)
     r18_2(ctx)
     r18_3(ctx)
     r18_4(ctx)
     r18_5(ctx)
     r18_6(ctx)
+    # R18.7 = R16.5: mode products put the new axis back where the contracted one was (cyclic move, not an exchange)
+    import rules.C16 as c16
+    ctx.shared(c16.r16_5, 'R16.5', 'R18.7')
